@@ -177,7 +177,7 @@ CHECKS = {
         rule=('one case per schema definition in scope and one per registered constructor id; the whole finite set is enumerated on every run (no sampling). Non-trivial: the '
               'definition has at least one parameter / the id is registered; distinct by definition name.'),
         programs_class='programs',
-        must_hit=['zero-valued-scalar-arguments', 'exported-constant', 'same-method-from-4-goroutines-at-once', 'kind:function', 'kind:constructor', 'kind:enum-member', 'dormant-definition', 'hand-written-wrapper', 'has-conditional-fields', 'file:mtproto.tl', 'registered-id', 'method-call', 'second-call-on-the-same-client', 'result-kind:Bool', 'result-kind:vector', 'result-kind:object', 'args:positional'],
+        must_hit=['call-after-a-refused-call', 'zero-valued-scalar-arguments', 'exported-constant', 'same-method-from-4-goroutines-at-once', 'kind:function', 'kind:constructor', 'kind:enum-member', 'dormant-definition', 'hand-written-wrapper', 'has-conditional-fields', 'file:mtproto.tl', 'registered-id', 'method-call', 'second-call-on-the-same-client', 'result-kind:Bool', 'result-kind:vector', 'result-kind:object', 'args:positional'],
         assumptions=['the five commented-out header lines of api_121.tl ("these items exist in tl schema") count as definitions of the schema file; their ids are compared as written, the CRC-32 rule is not applied to them',
                      'msg_container and gzip_packed have hand-written (un)marshalers: only their ids are compared here, their wire behaviour in C02',
                      'invokeAfterMsg(s), invokeWithoutUpdates, invokeWithMessagesRange are documented as not implemented and are reported, not flagged'],
